@@ -222,7 +222,10 @@ func (e *Engine) objVal(env *SpecEnv, obj types.Object) Val {
 	case *types.Var:
 		hn := "G_" + o.Pkg().Path() + "." + o.Name()
 		s := e.sortOf(o.Type())
-		return Val{T: e.heapIn(env.st, hn, s), S: s, GoT: o.Type()}
+		t := e.heapIn(env.st, hn, s)
+		e.sentinelFacts(hn, t)
+		e.loadFacts(env.st, Val{T: t, S: s}, o.Type())
+		return Val{T: t, S: s, GoT: o.Type()}
 	case *types.Nil:
 		return Val{T: "0", S: "Int", GoT: types.Typ[types.UntypedNil]}
 	}
@@ -417,6 +420,11 @@ func (e *Engine) trSelector(env *SpecEnv, n SSel) Val {
 	if id, ok := n.X.(SIdent); ok {
 		if _, bound := env.vars[id.Name]; !bound {
 			if pkg := e.importedPkg(env, id.Name); pkg != nil {
+				if g, ok := e.w.Ghosts[pkg.Path()+"."+n.Sel]; ok {
+					hn := "GH_" + g.Pkg.PkgPath + "." + g.Name
+					s := e.sortOf(g.Type)
+					return Val{T: e.heapIn(env.st, hn, s), S: s, GoT: g.Type}
+				}
 				obj := pkg.Scope().Lookup(n.Sel)
 				if obj == nil {
 					e.specFail(env, "no "+n.Sel+" in package "+id.Name)
@@ -623,6 +631,14 @@ func (e *Engine) trCall(env *SpecEnv, n SCall) Val {
 		}
 		_, ub := e.boxFns(t)
 		return Val{T: "(" + ub + " " + x.T + ")", S: e.sortOf(t), GoT: t}
+	case "cast":
+		x := arg(0)
+		t, err := e.w.resolveType(env.pkg, env.pos, specString(n.Args[1]))
+		if err != nil {
+			e.specFail(env, err.Error())
+		}
+		x.GoT = t
+		return x
 	case "box":
 		x := arg(0)
 		bx, _ := e.boxFns(x.GoT)
